@@ -53,6 +53,11 @@ type rtCheck struct {
 	StreamPerMethod [2]int
 	// Unions lets a share of the check's designs carry OneOf attributes in request/response bodies (gen/union.go).
 	Unions bool
+	// Multipart lets a share of the body-carrying methods be MultipartRequest() endpoints (gen/multipart.go), driven
+	// with the lab's multipart codec (rt/multipart.go).
+	Multipart bool
+	// MultipartFew: a third of that share (C14 cannot decide multipart exchanges).
+	MultipartFew bool
 }
 
 type rtWitness struct {
@@ -158,7 +163,7 @@ func runRuntime(c *rtCheck) {
 		var specs []*spec.Spec
 		for i := 0; i < n; i++ {
 			prof := c.Profiles[(idx+i)%len(c.Profiles)]
-			s := gen.Generate(run.Rand(2, uint64(idx+i)), fmt.Sprintf("%d", idx+i), gen.Opts{Profile: prof, Runtime: true, Thorough: run.Thorough(), Files: c.AllowFiles, Streams: c.Streams, Unions: c.Unions})
+			s := gen.Generate(run.Rand(2, uint64(idx+i)), fmt.Sprintf("%d", idx+i), gen.Opts{Profile: prof, Runtime: true, Thorough: run.Thorough(), Files: c.AllowFiles, Streams: c.Streams, Unions: c.Unions, Multipart: c.Multipart, MultipartFew: c.MultipartFew})
 			s.AddFeature("profile-" + prof)
 			specs = append(specs, s)
 		}
@@ -376,6 +381,7 @@ func runDesigns(run *vc.Run, c *rtCheck, dir string, specs []*spec.Spec, mk func
 			}
 			conclusive++
 			countUnions(run, ex) // union.go
+			countMultipart(run, d.Spec, ex)
 			for _, f := range v.Findings {
 				if verbose {
 					fmt.Printf("FINDING %s: %s\n", f.Key, f.What)
@@ -486,7 +492,7 @@ func countTaps(run *vc.Run, ex *rt.Exchange) {
 
 // genRuntimeSpec draws one runtime-drivable spec.
 func genRuntimeSpec(run *vc.Run, stream uint64, i int, prof string) *spec.Spec {
-	s := gen.Generate(run.Rand(stream, uint64(i)), fmt.Sprintf("%d", i), gen.Opts{Profile: prof, Runtime: true, Thorough: run.Thorough()})
+	s := gen.Generate(run.Rand(stream, uint64(i)), fmt.Sprintf("%d", i), gen.Opts{Profile: prof, Runtime: true, Thorough: run.Thorough(), Multipart: true})
 	s.AddFeature("profile-" + prof)
 	return s
 }
